@@ -120,7 +120,7 @@ func ciscoPlan(kind, prop string) RunFunc {
 				return nil
 			}
 			if msg, p2 := c.Recompare(cs, o.Node.Conf, tp); msg != "" {
-				f := fail("recompare-nonempty|"+script2KindOn(p2, o.Node.Conf), msg)
+				f := fail("recompare-nonempty|"+script2KindOn(p2, o.Node.Conf)+identicalGroupsNote(cs.A, script2KindOn(p2, o.Node.Conf)), msg)
 				f.Input["device_after"] = strings.Split(cisco.Print(o.Node.Conf, cs.PO), "\n")
 				f.Input["script2"] = scriptText(p2.Script)
 				return f
@@ -367,26 +367,69 @@ func script2KindOn(p Plan, dev *cisco.Conf) string {
 			have[kk][cisco.NormACE(dev.Kind, e.Text)] = true
 		}
 	}
-	adds := 0
+	logOnly, moved, dels := 0, 0, 0
 	for _, c := range p.Script {
 		l := c.Line
 		switch {
 		case strings.HasPrefix(l, "ip access-list resequence "), strings.HasPrefix(l, "ip access-list extended "), l == "exit":
 		case strings.HasPrefix(l, "no access-list "), strings.HasPrefix(l, "no ") && iosNumRE.MatchString(strings.TrimPrefix(l, "no ")+" "):
+			dels++
 		case iosNumRE.MatchString(l), asaHeadRE.MatchString(l):
 			t := iosNumRE.ReplaceAllString(l, "")
 			t = asaHeadRE.ReplaceAllString(t, "")
 			m := have[cisco.AceKey(dev.Kind, t)]
-			if m == nil || m[cisco.NormACE(dev.Kind, t)] {
+			switch {
+			case m == nil:
 				return k
+			case m[cisco.NormACE(dev.Kind, t)]:
+				moved++ // the very line is on the device: it only changes its place
+			default:
+				logOnly++
 			}
-			adds++
 		default:
 			return k
 		}
 	}
-	if adds > 0 {
+	switch {
+	case logOnly > 0 && moved == 0:
 		return "log-option-only"
+	case dev.Kind == "IOS" && moved > 0 && logOnly == 0 && dels == moved:
+		// IOS only: on ASA the order of lines always matters.
+		return "existing-line-move-only"
 	}
 	return k
+}
+
+// identicalGroupsNote separates the known "two identical groups on the device"
+// family from a left-over group that arises without such a pair on the device
+// the run started from.
+func identicalGroupsNote(start *cisco.Conf, kind string) string {
+	if kind != "leftover-object-deletion-only" || start == nil {
+		return ""
+	}
+	seen := map[string]bool{}
+	for _, o := range start.Objs {
+		if o.Opaque || !strings.HasPrefix(o.Head, "object-group ") {
+			continue
+		}
+		m := append([]string(nil), o.Subs...)
+		sortStrings(m)
+		f := strings.Fields(o.Head)
+		k := f[1] + ":" + strings.Join(m, ",")
+		if seen[k] {
+			return ""
+		}
+		seen[k] = true
+	}
+	return "|device-had-no-identical-groups"
+}
+
+func sortStrings(l []string) {
+	for i := range l {
+		for j := i + 1; j < len(l); j++ {
+			if l[j] < l[i] {
+				l[i], l[j] = l[j], l[i]
+			}
+		}
+	}
 }
